@@ -7,14 +7,56 @@ import (
 	"go/parser"
 	"go/token"
 	"io/fs"
+	"math/rand"
 	"os"
 	"path/filepath"
 	"sort"
 	"strings"
 	"testing"
 
+	"github.com/ethereum/go-ethereum/common"
 	"github.com/palomachain/paloma/v2/verifharness/emit"
 )
+
+// spell writes an eth address the way a client may: the code accepts 40 hex digits in any case with
+// "0x", "0X" or (outside geth's HexToAddress-only paths also) no prefix.  The spelling of every address in
+// every message is drawn independently; keys are compared as parsed 20-byte values by oracle and model.
+func spellForm(a common.Address, form int) string {
+	digits := a.Hex()[2:] // EIP-55
+	switch form % 4 {
+	case 1:
+		digits = strings.ToLower(digits)
+	case 2:
+		digits = strings.ToUpper(digits)
+	case 3: // flip the case of some letters: neither checksummed nor uniform
+		b := []byte(strings.ToLower(digits))
+		for i := range b {
+			if b[i] >= 'a' && b[i] <= 'f' && (i*7+form)%3 == 0 {
+				b[i] -= 32
+			}
+		}
+		digits = string(b)
+	}
+	switch (form / 4) % 3 {
+	case 1:
+		return "0X" + digits
+	case 2:
+		return digits
+	}
+	return "0x" + digits
+}
+
+const nSpellings = 12
+
+// spell: checksummed "0x…" half of the time (what pigeon sends), any other accepted form otherwise.
+func spell(r *rand.Rand, a common.Address) string {
+	if r.Intn(2) == 0 {
+		return a.Hex()
+	}
+	return spellForm(a, r.Intn(nSpellings))
+}
+
+func lowerOf(s string) string { return strings.ToLower(common.HexToAddress(s).Hex()) }
 
 // liveReassignCallers: production call sites of the signature-keeping reassignment (same query as the
 // translator's, on the tree under test).  Empty on the pinned tree.
